@@ -54,16 +54,22 @@ fn scenario(n: usize) {
         // sender is gone before the poll, so the fold must run to completion in this poll
         let fut = dht.get_mutable_most_recent(&[0; 32], None);
         let mut fut = std::pin::pin!(fut);
-        #[cfg(verif_replay)]
-        {
-            // real flume: the actor double runs before the poll (the message is queued)
-            if let Ok(m) = rx.try_recv() {
-                serve(m)
-            }
-        }
         let waker = Waker::noop();
         let mut cx = Context::from_waker(&waker);
-        match fut.as_mut().poll(&mut cx) {
+        #[allow(unused_mut)]
+        let mut polled = fut.as_mut().poll(&mut cx);
+        #[cfg(verif_replay)]
+        {
+            // real flume: the first poll sends the request to the (absent) actor and parks on the
+            // stream; the actor double then answers and the second poll runs the fold to completion
+            if polled.is_pending() {
+                if let Ok(m) = rx.try_recv() {
+                    serve(m)
+                }
+                polled = fut.as_mut().poll(&mut cx);
+            }
+        }
+        match polled {
             Poll::Ready(v) => v,
             Poll::Pending => {
                 crate::verif_env::cut();
